@@ -307,7 +307,8 @@ class Values(Sub):
             yield dict(case, dtype="float64")
 
 
-REJECTIONS = (AssertionError, ValueError)       # kernel.py: `assert torch.all(input >= 0), ...`; ValueError = the same check spelled `raise`
+REJECTIONS = (AssertionError, ValueError, RuntimeError, ArithmeticError)   # kernel.py: `assert torch.all(input >= 0), ...`; the others = the same
+# check spelled `raise ...` (the statement says "rejects", not how); TypeError / IndexError / AttributeError ... are crashes, not input checks
 
 
 class Reject(Sub):
